@@ -58,6 +58,16 @@ CLAIMED = {
  "C20": dict(cat="exploration", tech="reference SQL reader monitor: emitted WHERE text is tokenised and parsed with standard precedence and compared (flattened) with the criteria tree; adversarial operand pools",
    text="All AND/OR/NOT shapes to depth 3 (exhaustive) and sampled deeper, with every adversarial string and boundary number as literal or bound parameter; the text must read back to the same boolean structure and operands, each string as exactly one literal.",
    note="Trusted: the reference reader's dialect (backtick identifiers, backslash-escaped double-quoted strings).", ref="DESIGN.md §4 C20"),
+
+ "C07": dict(cat="exploration", tech="sequence monitor: six invocations of one Callable with conforming / mismatching environments in three forms (map, reflection-built struct, raw), reference type equality decides accept/reject, host-call trace must stay empty on refusal",
+   text="Pairs of compile-time and run-time environments with dropped names, values retyped at depth 0-3, optional-vs-plain fields, reordered struct fields, extra names and an in-place re-bound raw environment object; accepted iff every compile-time name is bound to a value of equal type; refused calls must not have invoked any host function; accepted calls must return the reference value.",
+   note="Trusted: props/togo.go (reference value -> Go host value) and the reference type equality.", ref="DESIGN.md §4 C07"),
+ "C15": dict(cat="exploration", tech="reference-converter monitor over reflection-built Go types and values (expectation generated with the value); type-stability pairs; error-class table",
+   text="ValOf / TypeOf on generated Go values of every numeric kind, strings, times, pointers, slices, arrays, maps, structs with tag variants and interface boxing: well-formedness walk, TypeOf == ValOf.Type == shape-dictated type, content equality, equal types for two values of one interface-free Go type incl. 'compile against one, invoke with the other', and an error (not a panic, not success) for 26 unsupported / inconsistent inputs.",
+   note="Trusted: props/hostgen.go expectation logic.", ref="DESIGN.md §4 C15"),
+ "C16": dict(cat="exploration", tech="exhaustive misuse table (every built-in x every typed parameter position given an optional) + random programs over present/absent optionals on 4 back ends and over host structs with nil pointers",
+   text="Every typed parameter position of every built-in, every access form and 21 misuse shapes receive an optional of exactly the required type and must be refused by the checker; get(optional, default) and random accepted programs over absent data must agree with the reference evaluator and never end in an internal fault; absent untagged pointers are never read as values.",
+   note="Trusted: reference checker / evaluator; bare-type-variable parameters accept optionals by design.", ref="DESIGN.md §4 C16"),
 }
 NOT_YET = "check not built yet in this session (see DESIGN.md §4); will be claimed when its monitor exists"
 
